@@ -200,7 +200,7 @@ func runLua(src string, args []rt.Value) (outcome string) {
 				cerr = fmt.Errorf("%v", p)
 			}
 		}()
-		r.PushContext(rt.RuntimeContextDef{HardLimits: rt.RuntimeResources{Cpu: 600_000}})
+		r.PushContext(rt.RuntimeContextDef{HardLimits: rt.RuntimeResources{Cpu: 3_000_000}})
 		defer r.PopContext()
 		term := rt.NewTerminationWith(nil, 0, true)
 		cerr = rt.Call(r.MainThread(), rt.FunctionValue(clos), nil, term)
